@@ -7,7 +7,7 @@ C01 = importlib.import_module('harness.C01')
 
 PROP = 'C04'
 MODEL_MODULES = ['TenpyModel.Util.J', 'TenpyModel.Core.ArrCodec']
-PROPS_MODULES = ['TenpyModel.C04.Props']
+PROPS_MODULES = ['TenpyModel.C04.Props', 'TenpyModel.C04.Props2']
 LEVEL = 'proof'
 BUDGET = {'quick': 175, 'thorough': 1700}
 RULE = ('the C01 program stream (random typed programs over the public tensor operations, all charge structures, '
